@@ -223,6 +223,7 @@ def gen_case(rng, tier="quick"):
             "iterations": iterations, "patches": patches}
     add_environments(rng, case)
     add_storage(rng, case)
+    add_list_options(rng, case)
     # how each load names the platform: "same" = experimentFromInstance(dir, platform=<the selected one>),
     # "none" = experimentFromInstance(dir) (what ewrap/etest/ememo/einspect do)
     cycles = rng.choice([1, 1, 2, 3])
@@ -236,6 +237,53 @@ def gen_case(rng, tier="quick"):
     case["cycles"] = cycles
     case["reloads"] = reloads
     return case
+
+
+REASONS = ["KnownIssue", "SystemIssue", "SubmissionFailed", "UnknownIssue", "ResourceExhausted", "Success"]
+# list-valued options: a list is replaced as a whole by the narrower layer (override_object), so an explicitly EMPTY
+# list is a value of its own - it switches off what the built-in default ([ResourceExhausted] for restartHookOn), a
+# blueprint or the component itself (under a platform override) would otherwise give
+LIST_OPTIONS = [("workflowAttributes", "restartHookOn"), ("workflowAttributes", "restartHookOn"),
+                ("workflowAttributes", "shutdownOn"), ("executors", "pre"), ("executors", "post")]
+
+
+def _list_value(rng, opt, empty):
+    if rng.random() < empty:
+        return []
+    if opt[0] == "executors":
+        return [{"name": "lsf-dm-in" if opt[1] == "pre" else "lsf-dm-out", "payload": rng.choice(["-s a", "-d b/c"])}]
+    return rng.sample(REASONS, rng.choice([1, 1, 2]))
+
+
+def add_list_options(rng, case):
+    """list-valued options in every layer: blueprints (global / stage, per platform) mostly non-empty, components,
+    per-platform overrides and DoWhile components mostly EMPTY (explicit `[]` over the inherited / built-in list)"""
+    if rng.random() < 0.4:
+        return
+    main = case["main"]
+    opts = rng.sample(LIST_OPTIONS, rng.choice([1, 2, 3]))
+    nstages = 1 + max(int(c.get("stage", 0)) for c in main["components"])
+    for p in main["platforms"]:
+        if rng.random() < (0.7 if p == "default" else 0.35):
+            g = main.setdefault("blueprint", {}).setdefault(p, {}).setdefault("global", {})
+            for o in opts:
+                if rng.random() < 0.7:
+                    g.setdefault(o[0], {})[o[1]] = _list_value(rng, o, 0.1)
+        if rng.random() < 0.3:
+            st = main.setdefault("blueprint", {}).setdefault(p, {}).setdefault("stages", {}).setdefault(
+                rng.randrange(nstages), {})
+            o = rng.choice(opts)
+            st.setdefault(o[0], {})[o[1]] = _list_value(rng, o, 0.6)
+    comps = plain_components(case) + list((case.get("dowhile") or {}).get("components") or [])
+    extra = [p for p in main["platforms"] if p != "default"]
+    for c in comps:
+        if rng.random() < 0.5:
+            for o in rng.sample(opts, rng.choice([1, len(opts)])):
+                c.setdefault(o[0], {})[o[1]] = _list_value(rng, o, 0.65)
+        if extra and "$import" not in c and c in plain_components(case) and rng.random() < 0.3:
+            o = rng.choice(opts)
+            ov = c.setdefault("override", {}).setdefault(rng.choice(extra), {})
+            ov.setdefault(o[0], {})[o[1]] = _list_value(rng, o, 0.6)
 
 
 FOLDER_NAMES = ["refdata", "shared", "tables", "lib-x", "Nest"]
@@ -819,6 +867,44 @@ def conf_views(mres, snap):
     return model_view, impl_view
 
 
+def list_option_tags(case):
+    """which explicit list values the package holds, and whether an explicitly EMPTY one sits over a non-empty
+    inherited value (blueprint of the default or the selected platform, the component under its override, or the
+    built-in [ResourceExhausted] of restartHookOn)"""
+    tags = set()
+    main = case["main"]
+    bps = main.get("blueprint") or {}
+
+    def lists_of(d):
+        out = {}
+        for a, b in set(LIST_OPTIONS):
+            v = ((d or {}).get(a) or {}).get(b)
+            if isinstance(v, list):
+                out[(a, b)] = v
+        return out
+    inherited = {}
+    for p in ("default", case["platform"]):
+        for lay in [(bps.get(p) or {}).get("global")] + list(((bps.get(p) or {}).get("stages") or {}).values()):
+            for o, v in lists_of(lay).items():
+                tags.add("list-option:blueprint-" + ("empty" if not v else "non-empty"))
+                if v:
+                    inherited[o] = True
+    inherited[("workflowAttributes", "restartHookOn")] = True
+    comps = [c for c in main["components"] if "$import" not in c] + list((case.get("dowhile") or {}).get("components") or [])
+    for c in comps:
+        own = lists_of(c)
+        for o, v in own.items():
+            tags.add("list-option:component-" + ("empty" if not v else "non-empty"))
+            if not v and inherited.get(o):
+                tags.add("list-option:explicit-empty-over-non-empty")
+        for p, ov in (c.get("override") or {}).items():
+            for o, v in lists_of(ov).items():
+                tags.add("list-option:override-" + ("empty" if not v else "non-empty"))
+                if not v and p == case["platform"] and (inherited.get(o) or own.get(o)):
+                    tags.add("list-option:explicit-empty-over-non-empty")
+    return tags
+
+
 def check_case(ctx, case, tmp_root):
     import yaml
     tmp = tempfile.mkdtemp(prefix="case-", dir=tmp_root)
@@ -839,6 +925,7 @@ def check_case(ctx, case, tmp_root):
             "layout:" + case.get("layout", "dir"),
             "reloads:" + ("all-same" if "none" not in reloads else ("all-none" if "same" not in reloads else "mixed")),
             "environments" if case["main"].get("environments") else "no-environments"]
+    tags += sorted(list_option_tags(case))
     if nondefault and "none" in reloads:
         tags.append("platformless-reload-of-non-default-platform-instance")
         if any("variables" in (o or {}) for c in comps for o in (c.get("override") or {}).values()):
